@@ -17,6 +17,7 @@
 //	  fail=0|1          (first) the handshake fails: wrong server name
 //	  closeafter=<k> closers=<n>   (close) n goroutines call Close once k Writes have returned
 //	  slen=<n> rbufs=<b.b.b>       (read) one stream of n bytes, one reader goroutine per buffer size
+//	  bad=<n>           (dgram) every writer first makes n WriteTo calls to a foreign address (refused early)
 //	  scen=silent side=c|s call=hs|read    a Handshake / first Read parked on a peer that never answers, then Close
 //	  scen=switch trials=<t> n=<w>         t first uses of a pa connection by 1 Read + w Writes + a ProtectedConn poller
 //	  scen=hsclose hs=<n> closeafter=<k>   Close on the client after k yields, racing with the first handshake
@@ -71,8 +72,11 @@ type spec struct {
 	closeAfter, closers int
 	slen                int
 	rbufs               []int
-	side, call          string // silent
+	side, call          string // silent, stall
 	trials, n           int    // switch
+	park, slow          int    // whole
+	bad                 int    // dgram: WriteTo calls to a foreign address per writer (refused), before the real ones
+	how                 string // stall
 }
 
 func groups(s string) [][]int {
@@ -134,12 +138,16 @@ func (s spec) String() string {
 		b += fmt.Sprintf(" hs=%d closeafter=%d", s.hs, s.closeAfter)
 	case "silent":
 		b += fmt.Sprintf(" side=%s call=%s", s.side, s.call)
+	case "whole":
+		b += fmt.Sprintf(" cw=%s park=%d slow=%d", showGroups(s.cw), s.park, s.slow)
+	case "stall":
+		b += fmt.Sprintf(" side=%s call=%s how=%s", s.side, s.call, s.how)
 	case "switch":
 		b += fmt.Sprintf(" trials=%d n=%d", s.trials, s.n)
 	case "read":
 		b += fmt.Sprintf(" slen=%d rbufs=%s", s.slen, showInts(s.rbufs))
 	case "dgram":
-		b += fmt.Sprintf(" cw=%s rbufs=%s", showGroups(s.cw), showInts(s.rbufs))
+		b += fmt.Sprintf(" cw=%s rbufs=%s bad=%d", showGroups(s.cw), showInts(s.rbufs), s.bad)
 	}
 	return b
 }
@@ -169,6 +177,10 @@ func parse(desc string) spec {
 	s.call, _ = hx.KV(desc, "call")
 	s.trials = hx.KVInt(desc, "trials")
 	s.n = hx.KVInt(desc, "n")
+	s.park = hx.KVInt(desc, "park")
+	s.slow = hx.KVInt(desc, "slow")
+	s.how, _ = hx.KV(desc, "how")
+	s.bad = hx.KVInt(desc, "bad")
 	if s.trials < 1 {
 		s.trials = 1
 	}
@@ -270,11 +282,129 @@ type ends struct {
 	abort          func()
 	dc, ds         *dtlcp.Conn // datagram API (dtlcp only)
 	caddr, saddr   net.Addr
+	cgate, sgate   *ioGate // transport-write gates of the two ends (scenarios whole, stall)
 }
+
+// ioGate sits in front of the transport writes of one end. It can
+//   - park the FIRST write after armPark() until release() (scenario whole), and delay every
+//     later one (a slow link);
+//   - stall ALL writes after armStall() — the peer stopped reading, the socket buffers are full —
+//     until the write deadline of the transport passes (os.ErrDeadlineExceeded), or the transport
+//     is closed (net.ErrClosed). The in-memory transports of internal/pair never block a write
+//     and ignore write deadlines, so this is where the net.Conn deadline contract for writes is
+//     implemented for the scenarios that need it.
+type ioGate struct {
+	mu       sync.Mutex
+	cond     *sync.Cond
+	parkNext bool
+	stall    bool
+	released bool
+	closed   bool
+	wdl      time.Time
+	slow     time.Duration
+	entered  chan struct{} // closed when a write has reached the gate while parked / stalled
+	once     sync.Once
+}
+
+func newGate() *ioGate {
+	g := &ioGate{entered: make(chan struct{})}
+	g.cond = sync.NewCond(&g.mu)
+	return g
+}
+func (g *ioGate) armPark(slow time.Duration) {
+	g.mu.Lock()
+	g.parkNext, g.slow = true, slow
+	g.mu.Unlock()
+}
+func (g *ioGate) armStall() { g.mu.Lock(); g.stall = true; g.mu.Unlock() }
+func (g *ioGate) release()  { g.mu.Lock(); g.released = true; g.cond.Broadcast(); g.mu.Unlock() }
+func (g *ioGate) close()    { g.mu.Lock(); g.closed = true; g.cond.Broadcast(); g.mu.Unlock() }
+func (g *ioGate) setWriteDeadline(t time.Time) {
+	g.mu.Lock()
+	g.wdl = t
+	g.cond.Broadcast()
+	g.mu.Unlock()
+}
+
+// before is called at the start of every transport write of the end.
+func (g *ioGate) before() error {
+	g.mu.Lock()
+	if g.parkNext {
+		g.parkNext = false
+		g.once.Do(func() { close(g.entered) })
+		for !g.released && !g.closed {
+			g.cond.Wait()
+		}
+	}
+	if !g.stall {
+		d := g.slow
+		g.mu.Unlock()
+		if d > 0 {
+			time.Sleep(d)
+		}
+		return nil
+	}
+	defer g.mu.Unlock()
+	g.once.Do(func() { close(g.entered) })
+	for {
+		if g.closed {
+			return net.ErrClosed
+		}
+		if !g.wdl.IsZero() {
+			d := time.Until(g.wdl)
+			if d <= 0 {
+				return os.ErrDeadlineExceeded
+			}
+			t := time.AfterFunc(d, func() { g.mu.Lock(); g.cond.Broadcast(); g.mu.Unlock() })
+			g.cond.Wait()
+			t.Stop()
+			continue
+		}
+		g.cond.Wait()
+	}
+}
+
+// gatedStream / gatedPacket: an end of internal/pair behind an ioGate.
+type gatedStream struct {
+	*pair.StreamEnd
+	g *ioGate
+}
+
+func (s *gatedStream) Write(p []byte) (int, error) {
+	if err := s.g.before(); err != nil {
+		return 0, err
+	}
+	return s.StreamEnd.Write(p)
+}
+func (s *gatedStream) SetWriteDeadline(t time.Time) error { s.g.setWriteDeadline(t); return nil }
+func (s *gatedStream) SetDeadline(t time.Time) error {
+	s.g.setWriteDeadline(t)
+	return s.StreamEnd.SetReadDeadline(t)
+}
+func (s *gatedStream) Close() error { s.g.close(); return s.StreamEnd.Close() }
+
+type gatedPacket struct {
+	*pair.PacketEnd
+	g *ioGate
+}
+
+func (s *gatedPacket) WriteTo(p []byte, a net.Addr) (int, error) {
+	if err := s.g.before(); err != nil {
+		return 0, err
+	}
+	return s.PacketEnd.WriteTo(p, a)
+}
+func (s *gatedPacket) SetWriteDeadline(t time.Time) error { s.g.setWriteDeadline(t); return nil }
+func (s *gatedPacket) SetDeadline(t time.Time) error {
+	s.g.setWriteDeadline(t)
+	return s.PacketEnd.SetReadDeadline(t)
+}
+func (s *gatedPacket) Close() error { s.g.close(); return s.PacketEnd.Close() }
 
 // mkPair builds fresh endpoints (no handshake yet); yield hooks sit inside the transports.
 func mkPair(sp spec, y *yielder) *ends {
 	e := &ends{}
+	gated := sp.scen == "whole" || sp.scen == "stall"
 	if sp.stack == "dtlcp" {
 		ce, se := pair.PacketPipe()
 		ce.OnSend = func(_ int, d []byte) [][]byte { y.maybe(); return [][]byte{d} }
@@ -283,13 +413,18 @@ func mkPair(sp spec, y *yielder) *ends {
 		if sp.fail {
 			ccfg.ServerName = "wrong.example"
 		}
-		c := dtlcp.Client(ce, se.LocalAddr(), ccfg)
-		s := dtlcp.Server(se, ce.LocalAddr(), scfg)
+		var cpc, spc net.PacketConn = ce, se
+		if gated {
+			e.cgate, e.sgate = newGate(), newGate()
+			cpc, spc = &gatedPacket{ce, e.cgate}, &gatedPacket{se, e.sgate}
+		}
+		c := dtlcp.Client(cpc, se.LocalAddr(), ccfg)
+		s := dtlcp.Server(spc, ce.LocalAddr(), scfg)
 		e.c, e.s, e.dc, e.ds = c, s, c, s
 		e.caddr, e.saddr = ce.LocalAddr(), se.LocalAddr()
 		e.cstate = func() { _ = c.ConnectionState() }
 		e.sstate = func() { _ = s.ConnectionState() }
-		e.abort = func() { ce.Close(); se.Close() }
+		e.abort = func() { cpc.Close(); spc.Close() }
 		return e
 	}
 	ce, se := pair.StreamPipe()
@@ -308,12 +443,17 @@ func mkPair(sp spec, y *yielder) *ends {
 	if sp.fail {
 		ccfg.ServerName = "wrong.example"
 	}
-	c := tlcp.Client(ce, ccfg)
-	s := tlcp.Server(se, scfg)
+	var cnc, snc net.Conn = ce, se
+	if gated {
+		e.cgate, e.sgate = newGate(), newGate()
+		cnc, snc = &gatedStream{ce, e.cgate}, &gatedStream{se, e.sgate}
+	}
+	c := tlcp.Client(cnc, ccfg)
+	s := tlcp.Server(snc, scfg)
 	e.c, e.s = c, s
 	e.cstate = func() { _ = c.ConnectionState() }
 	e.sstate = func() { _ = s.ConnectionState() }
-	e.abort = func() { ce.Close(); se.Close() }
+	e.abort = func() { cnc.Close(); snc.Close() }
 	return e
 }
 
@@ -687,11 +827,20 @@ func scenDgram(sp spec, y *yielder, o *obs) {
 	start := make(chan struct{})
 	var mu sync.Mutex
 	var cres []wres
+	var bad []string
 	var wg, rg group
 	for w, ls := range sp.cw {
 		w, ls := w, ls
 		wg.goFn(func() {
 			<-start
+			for k := 0; k < sp.bad; k++ {
+				// a call that is refused early (not the peer's address): it must leave the
+				// connection usable and must not keep Close waiting later on
+				_, err := e.dc.WriteTo(Payload(w, 0, 10), e.caddr)
+				mu.Lock()
+				bad = append(bad, errTok(err))
+				mu.Unlock()
+			}
 			for j, l := range ls {
 				y.maybe()
 				n, err := e.dc.WriteTo(Payload(w, j, l), e.saddr)
@@ -739,6 +888,76 @@ func scenDgram(sp spec, y *yielder, o *obs) {
 	if !o.dead {
 		o.add("dg", strings.Join(all, ","))
 	}
+	sort.Strings(bad)
+	o.add("bad", strings.Join(bad, ","))
+	for _, g := range []*group{&wg, &rg} {
+		if len(g.panics) > 0 {
+			o.panic = g.panics[0]
+		}
+	}
+	if !o.dead {
+		// Close waits for the calls in flight: there are none left, it must return
+		var cg group
+		cg.goFn(func() { e.c.Close() })
+		cg.goFn(func() { e.s.Close() })
+		if !cg.wait(5 * time.Second) {
+			o.dead = true
+			e.abort()
+		}
+	}
+}
+
+// scenWhole: concurrent Writes of large payloads over a slow transport. Writer 0 goes first; its
+// first application record is parked inside the transport — writer 0 owns the write half — until
+// the other writers have been started and have queued behind it; then the link is released and
+// every further transport write takes a little while, so that a writer waiting for the write half
+// is handed the mutex whenever the owner lets go of it before its payload is out.
+func scenWhole(sp spec, y *yielder, o *obs) {
+	e := mkPair(sp, y)
+	if !handshakeBoth(e) {
+		o.add("setup", "handshake-failed")
+		o.dead = true
+		return
+	}
+	var mu sync.Mutex
+	var cres []wres
+	var wg, rg group
+	var cstream []byte
+	var cl string
+	startReader(&rg, e.s, 16384, &cstream, &cl)
+	e.cgate.armPark(time.Duration(sp.slow) * time.Microsecond)
+	first, rest := make(chan struct{}), make(chan struct{})
+	if len(sp.cw) > 0 {
+		startWriters(&wg, e.c, 0, sp.cw[:1], y, first, &mu, &cres, nil)
+		for w := 1; w < len(sp.cw); w++ {
+			startWriters(&wg, e.c, w, sp.cw[w:w+1], y, rest, &mu, &cres, nil)
+		}
+	}
+	close(first)
+	select {
+	case <-e.cgate.entered: // writer 0 sits in the transport, inside its Write
+	case <-time.After(watchdog):
+	}
+	close(rest)
+	time.Sleep(time.Duration(sp.park) * time.Millisecond) // the others queue up behind it
+	e.cgate.release()
+	ok := wg.wait(watchdog)
+	if ok {
+		e.s.SetReadDeadline(time.Now().Add(-time.Second))
+		ok = rg.wait(watchdog)
+	}
+	if !ok {
+		o.dead = true
+		e.abort()
+		wg.wait(2 * time.Second)
+		rg.wait(2 * time.Second)
+	}
+	mu.Lock()
+	o.add("cwres", showW(cres))
+	mu.Unlock()
+	if !o.dead {
+		o.add("cstream", hx.Hex(cstream))
+	}
 	for _, g := range []*group{&wg, &rg} {
 		if len(g.panics) > 0 {
 			o.panic = g.panics[0]
@@ -748,6 +967,91 @@ func scenDgram(sp spec, y *yielder, o *obs) {
 		e.c.Close()
 		e.s.Close()
 	}
+}
+
+// scenStall: a call parked in the transport — a Write whose peer stopped reading, or a Read on
+// a peer that stays silent — and, from another goroutine, the net.Conn way of getting it back:
+// a deadline setter with a time that has passed, or Close. The setter / Close must return, and
+// the parked call must come back with a timeout (an error, after Close). A setter for the
+// OTHER direction (how=r for a Write, how=w for a Read) must return just the same; the parked
+// call is then released with the matching setter.
+func scenStall(sp spec, y *yielder, o *obs) {
+	e := mkPair(sp, y)
+	if !handshakeBoth(e) {
+		o.add("setup", "handshake-failed")
+		o.dead = true
+		return
+	}
+	active, gate := e.c, e.cgate
+	if sp.side == "s" {
+		active, gate = e.s, e.sgate
+	}
+	var g, sg group
+	callRes, setRes := "-", "-"
+	if sp.call == "write" {
+		gate.armStall()
+		g.goFn(func() {
+			_, err := active.Write(Payload(0, 0, 100))
+			callRes = errTok(err)
+		})
+		select {
+		case <-gate.entered: // the record is in the transport, which does not take it
+		case <-time.After(5 * time.Second):
+		}
+	} else {
+		g.goFn(func() {
+			buf := make([]byte, 16)
+			_, err := active.Read(buf)
+			callRes = errTok(err)
+		})
+		time.Sleep(3 * time.Millisecond) // let it park in the transport read
+	}
+	time.Sleep(2 * time.Millisecond)
+	sg.goFn(func() {
+		y.maybe()
+		switch sp.how {
+		case "w":
+			setRes = errTok(active.SetWriteDeadline(time.Now()))
+		case "d":
+			setRes = errTok(active.SetDeadline(time.Now()))
+		case "r":
+			setRes = errTok(active.SetReadDeadline(time.Now()))
+		default:
+			setRes = errTok(active.Close())
+		}
+	})
+	okS := sg.wait(5 * time.Second)
+	if okS {
+		// a setter for the other direction leaves the call parked: release it with the matching one
+		if sp.call == "write" && sp.how == "r" {
+			active.SetWriteDeadline(time.Now())
+		}
+		if sp.call == "read" && sp.how == "w" {
+			active.SetReadDeadline(time.Now())
+		}
+	}
+	okC := okS && g.wait(5*time.Second)
+	if !okS || !okC {
+		o.dead = true
+		e.abort()
+		g.wait(2 * time.Second)
+		sg.wait(2 * time.Second)
+		if !okS {
+			setRes = "-"
+		} else {
+			callRes = "-"
+		}
+	}
+	o.add("call", callRes)
+	o.add("set", setRes)
+	for _, gr := range []*group{&g, &sg} {
+		if len(gr.panics) > 0 {
+			o.panic = gr.panics[0]
+		}
+	}
+	// the transport still takes nothing: a graceful Close would wait for its own close_notify
+	// deadline (5 s), so the transports are torn down instead
+	e.abort()
 }
 
 // scenHsClose: Close on the client races with the first handshake (several Handshake callers
@@ -1136,6 +1440,10 @@ func runCase(desc string, rl *raceLog) string {
 				scenHsClose(sp, y, o)
 			case "silent":
 				scenSilent(sp, y, o)
+			case "whole":
+				scenWhole(sp, y, o)
+			case "stall":
+				scenStall(sp, y, o)
 			case "switch":
 				scenSwitch(sp, y, o)
 			default:
@@ -1214,6 +1522,23 @@ func gen(o hx.Opts) []string {
 			}
 		}
 	}
+	// a call parked in the transport (a Write whose peer stopped reading, a Read on a silent peer)
+	// and a deadline setter or Close from another goroutine
+	for _, st := range []string{"tlcp", "dtlcp"} {
+		for _, call := range []string{"write", "read"} {
+			for _, how := range []string{"w", "d", "r", "close"} {
+				for _, side := range []string{"c", "s"} {
+					add(spec{stack: st, scen: "stall", procs: 4, seed: 10, side: side, call: call, how: how})
+				}
+			}
+		}
+	}
+	// payloads of several hundred KiB from concurrent writers over a slow transport: two large
+	// ones, a large one against small ones, three writers, more than one Write per writer
+	add(spec{stack: "tlcp", scen: "whole", procs: 4, seed: 11, cw: [][]int{{300000}, {300000}}, park: 5, slow: 50})
+	add(spec{stack: "tlcp", scen: "whole", procs: 2, seed: 12, yield: 20, cw: [][]int{{250000}, {7, 7, 7, 7, 7, 7}, {16385}}, park: 5, slow: 50})
+	add(spec{stack: "tlcp", scen: "whole", procs: 8, seed: 13, cw: [][]int{{70000, 140000}, {524288}, {100}}, park: 3, slow: 20})
+	add(spec{stack: "dtlcp", scen: "whole", procs: 4, seed: 14, cw: [][]int{{150000}, {150000}}, park: 5, slow: 10})
 	// fixed corner cases: one payload spanning several records against small ones, both stacks
 	for _, st := range []string{"tlcp", "dtlcp"} {
 		add(spec{stack: st, scen: "write", procs: 4, seed: 3, yield: 50, cw: [][]int{{40000}, {7, 7, 7, 7, 7, 7}, {1, 16384, 16385}}, sw: [][]int{{20000}, {3, 3, 3}}, hs: 0, misc: 1})
@@ -1287,10 +1612,43 @@ func gen(o hx.Opts) []string {
 				add(s)
 			}
 		}
+		{
+			// large concurrent Writes: 2-3 writers, 1-2 Writes each, 66 KiB .. 400 KiB
+			st := "tlcp"
+			if i%3 == 2 {
+				st = "dtlcp"
+			}
+			cw := make([][]int, 2+r.Intn(2))
+			for k := range cw {
+				cw[k] = make([]int, 1+r.Intn(2))
+				for m := range cw[k] {
+					if st == "dtlcp" {
+						cw[k][m] = 20000 + r.Intn(120000)
+					} else if k > 0 && r.Intn(4) == 0 {
+						cw[k][m] = 1 + r.Intn(300) // a small Write that must not land inside a large one
+					} else {
+						cw[k][m] = 66000 + r.Intn(340000)
+					}
+				}
+			}
+			add(spec{stack: st, scen: "whole", procs: hx.Pick(r, procs), seed: r.U64() % 1000000, yield: hx.Pick(r, []int{0, 10, 40}),
+				cw: cw, park: 2 + r.Intn(5), slow: hx.Pick(r, []int{0, 20, 50, 100})})
+			add(spec{stack: hx.Pick(r, []string{"tlcp", "dtlcp"}), scen: "stall", procs: hx.Pick(r, procs), seed: r.U64() % 1000000,
+				yield: hx.Pick(r, []int{0, 40}), side: hx.Pick(r, []string{"c", "s"}), call: hx.Pick(r, []string{"write", "read"}),
+				how: hx.Pick(r, []string{"w", "d", "r", "close"})})
+		}
 		if i%2 == 0 {
 			add(spec{stack: "pa", scen: "switch", procs: hx.Pick(r, procs), seed: r.U64() % 1000000, yield: hx.Pick(r, []int{0, 40, 80}), trials: 20, n: 1 + r.Intn(5)})
 			add(spec{stack: hx.Pick(r, []string{"tlcp", "dtlcp"}), scen: "silent", procs: hx.Pick(r, procs), seed: r.U64() % 1000000, side: hx.Pick(r, []string{"c", "s"}), call: hx.Pick(r, []string{"hs", "read"})})
 		}
+	}
+	// WriteTo calls that are refused early (foreign address) before the real ones, then Close.
+	// These come LAST: dtlcp's Close spins while it waits for the calls in flight, so a Close that
+	// waits for ever (an interlock left unbalanced by an error path) cannot be stopped and would
+	// slow down every case after it.
+	for i, pr := range []int{4, 2, 8} {
+		add(spec{stack: "dtlcp", scen: "dgram", procs: pr, seed: uint64(20 + i), yield: []int{0, 40, 10}[i],
+			cw: [][]int{{300, 20}, {1200}, {64, 64, 64}}[:2+i%2], rbufs: []int{2048, 2048}[:1+i%2], bad: 1 + i%2})
 	}
 	return cases
 }
